@@ -58,6 +58,7 @@ type Contract struct {
 	Line      int
 	Notes     []string
 	Lets      []Clause // let name = expr (evaluated in pre-state), Label holds the name
+	Macros    []Clause // macro name = text: textual abbreviation, expanded in every clause of this contract (evaluated where it is used)
 	Allocates []string // for assumed contracts: component names that may receive fresh objects
 	Bounded   string   // bounded-standin description
 	Havoc     bool     // assumed: havoc all state (unknown side effects)
@@ -65,7 +66,7 @@ type Contract struct {
 	Reveal    []string // opaque spec functions whose definition this function's proof may use
 }
 
-var kwRe = regexp.MustCompile(`^(axiom|func|props|requires|ensures|lemma|reveal|summary|modifies|loop|decreases|assumed|pure|nosafety|inline|maypanic|note|let|allocates|bounded-standin|havoc)\b`)
+var kwRe = regexp.MustCompile(`^(axiom|func|props|requires|ensures|lemma|reveal|summary|modifies|loop|decreases|assumed|pure|nosafety|inline|maypanic|note|let|macro|allocates|bounded-standin|havoc)\b`)
 var funcRe = regexp.MustCompile(`^func\s+(\([^)]*\)\.)?([A-Za-z0-9_./$#\-]+)\s*\(([^)]*)\)\s*(\(([^)]*)\))?\s*$`)
 
 // parseContractFile reads contracts from a file. pkgPath qualifies
@@ -216,6 +217,14 @@ func parseContractFile(path, pkgPath string) ([]*Contract, []Clause, error) {
 			c := Clause{Label: strings.TrimSpace(rest[:i]), Text: strings.TrimSpace(rest[i+1:]), Line: ln, File: path}
 			cur.Lets = append(cur.Lets, c)
 			lastClause = &cur.Lets[len(cur.Lets)-1]
+		case "macro":
+			i := strings.Index(rest, "=")
+			if i < 0 {
+				return nil, nil, fmt.Errorf("%s:%d: bad macro", path, ln)
+			}
+			c := Clause{Label: strings.TrimSpace(rest[:i]), Text: strings.TrimSpace(rest[i+1:]), Line: ln, File: path}
+			cur.Macros = append(cur.Macros, c)
+			lastClause = &cur.Macros[len(cur.Macros)-1]
 		case "loop":
 			fs := strings.Fields(rest)
 			if len(fs) < 2 {
@@ -245,7 +254,40 @@ func parseContractFile(path, pkgPath string) ([]*Contract, []Clause, error) {
 		}
 	}
 	_ = imports
+	for _, ct := range out {
+		ct.expandMacros()
+	}
 	return out, axioms, sc.Err()
+}
+
+// expandMacros substitutes macro names (whole identifiers) by their
+// parenthesised text; a macro may use macros defined before it.
+func (ct *Contract) expandMacros() {
+	if len(ct.Macros) == 0 {
+		return
+	}
+	exp := func(txt string) string {
+		for i := len(ct.Macros) - 1; i >= 0; i-- {
+			m := ct.Macros[i]
+			re := regexp.MustCompile(`\b` + regexp.QuoteMeta(m.Label) + `\b`)
+			txt = re.ReplaceAllLiteralString(txt, "("+m.Text+")")
+		}
+		return txt
+	}
+	for i := range ct.Requires {
+		ct.Requires[i].Text = exp(ct.Requires[i].Text)
+	}
+	for i := range ct.Ensures {
+		ct.Ensures[i].Text = exp(ct.Ensures[i].Text)
+	}
+	for i := range ct.Lets {
+		ct.Lets[i].Text = exp(ct.Lets[i].Text)
+	}
+	for _, ls := range ct.Loops {
+		for i := range ls.Invariants {
+			ls.Invariants[i].Text = exp(ls.Invariants[i].Text)
+		}
+	}
 }
 
 func splitNames(s string) []string {
